@@ -286,6 +286,44 @@ pub fn dispatch(op: &str, a: &[Arg]) -> Option<String> {
                 Err(e) => format!("[{} [Err {}] NONE]", ol(&calls), err_obs(&e)),
             }
         }
+        // bigappend len verify (off x<bytes>)*: a sparse foreign archive is listed, opened for append, gets one small entry,
+        // is finished and listed again: [before calls after]
+        "bigappend" => {
+            let mk = |a: &[Arg]| {
+                let mut dev = Sparse::default();
+                dev.len = a[0].n() as u64;
+                let mut i = 2;
+                while i + 1 < a.len() {
+                    dev.pos = a[i].n() as u64;
+                    let l = dev.len;
+                    dev.write_all(a[i + 1].b()).unwrap();
+                    dev.len = std::cmp::max(l, dev.len);
+                    i += 2;
+                }
+                dev.pos = 0;
+                dev
+            };
+            let verify_limit = a[1].n() as u64;
+            let before = read_back(mk(a), verify_limit);
+            let mut calls = vec![];
+            match zip::ZipWriter::new_append(mk(a)) {
+                Err(e) => format!("[{} [[AppendErr {}]] NONE]", before, err_obs(&e)),
+                Ok(mut w) => {
+                    let opts = zip::write::FileOptions::default().compression_method(zip::CompressionMethod::Stored)
+                        .last_modified_time(zip::DateTime::default());
+                    calls.push(match w.start_file("appended", opts) { Ok(()) => "[Ok unit]".to_string(), Err(e) => format!("[Err {}]", err_obs(&e)) });
+                    calls.push(match w.write_all(b"\x07ew") { Ok(()) => "[Ok unit]".to_string(), Err(e) => format!("[Err {}]", crate::ops_reader::io_obs(&e)) });
+                    match w.finish() {
+                        Ok(dev) => {
+                            let mut d2 = dev;
+                            d2.pos = 0;
+                            format!("[{} {} {}]", before, ol(&calls), read_back(d2, verify_limit))
+                        }
+                        Err(e) => format!("[{} {} [FinishErr {}]]", before, ol(&calls), err_obs(&e)),
+                    }
+                }
+            }
+        }
         "bigr" => {
             let mut dev = Sparse::default();
             dev.len = a[0].n() as u64;
